@@ -71,7 +71,7 @@ def walk_cases(rng, tier):
             for _ in range(sz):
                 a, b = rng.sample(pool, 2)
                 es.append((a, b))
-            for L in (limits if tier == "thorough" and rep == 0 else rng.sample(limits, 4)):
+            for L in (limits if tier == "thorough" and rep == 0 else rng.sample(limits, 4) + ([31, 40] if sz > 30 else [])):
                 if L == 0:
                     continue   # page size 0 never advances: not a walk (covered by reg_page)
                 cases.append(Case("reg_walk", [opt(L), entries_coq(u, es)],
